@@ -1,6 +1,7 @@
 """C11 - OPEN handshake (DESIGN.md 5/C11)."""
 from . import srvrules as R
 from .sockrules import FLAVOURS
+from . import sockrules as S
 
 from .meta import meta
 META = meta('C11', level='other', extra_tb=None)
@@ -10,5 +11,7 @@ def check(A):
     for fl in FLAVOURS:
         R.handle_connect_rules(A, fl, 'C11')
         R.trigger_event_rules(A, fl, 'C11')
+        S.get_request_rules(A, fl, 'C11')
     R.upgrades_rule(A, 'C11')
     R.sid_cookie_rule(A, 'C11')
+    R.constructor_rules(A, 'C11')
